@@ -1,6 +1,7 @@
 import SqlgrepModel.Drivers.Run
 import SqlgrepModel.Model.ExecI
 import SqlgrepModel.Spec.Join
+import SqlgrepModel.Model.JoinClause
 /- `join` (C05: FileExecutor run of a statement with a join; the joined file may be missing; the nested-loop
    specification's answer travels with the model's) and `intr` (C19: the same run with the `running` flag cleared
    before line `clear` of the joined file or before line `stop` of the input). -/
@@ -56,6 +57,16 @@ def handleFollowI (args : List Sexp) : String :=
       if ro.skipped.isSome then "skip " ++ ro.skipped.getD ""
       else statusOf ro ++ " out=" ++ ",".intercalate (ro.printed.map (fun l => Sexp.showBytes (strBytes l)))
     | _, _, _, _ => "bad-case"
+  | _ => "bad-case"
+
+/-- `onres <from> <joiner> <leftTable> <leftColumn> <rightTable> <rightColumn>`: `transform_join` -/
+def handleOnRes (args : List Sexp) : String :=
+  match args.mapM str? with
+  | some [fromTable, joiner, lt, lc, rt, rc] =>
+    match resolveJoin fromTable { joinerTable := joiner, leftTable := lt, leftColumn := lc, rightTable := rt, rightColumn := rc } with
+    | .ok (a, b) => "ok joiner=" ++ a ++ " joined=" ++ b ++ " table=" ++ joiner
+    | .error .invalidOnJoin => "err:InvalidOnJoin"
+    | .error .invalidJoinerTable => "err:InvalidJoinerTable"
   | _ => "bad-case"
 
 end Sqlgrep.Drivers.Join
